@@ -235,7 +235,11 @@ impl Module for M {
 //
 //   thick.polyline tx ty n x1 y1 .. xn yn w
 //       `Polyline::new(&[v1..vn]).translate((tx,ty)).into_styled(PrimitiveStyle::with_stroke(On, w))`
-//       -> `bb=<bounding_box()> draw=<call log of draw() on the native-fill target R2> px=<pixels()>`
+//       -> `bb=<bounding_box()> k=<kinds of the interior joins> s=<number of skeleton segments>
+//           draw=<call log of draw() on the native-fill target R2> px=<pixels()>`
+//          k:    one letter per interior join: M miter, b/B bevel (outer side left/right), d/D degenerate, C colinear;
+//                `-` if there is none. k and s come from `joins_port` (the join code is private) and are compared
+//                with the model's own classification; they feed the distribution counters.
 //          draw: `-` (no call) | `di:<points digest>` (one draw_iter call) |
 //                `fs:<digest of the fill_solid rectangles as the point list tl,(w,h),tl,(w,h),..>`
 //          px:   points digest of `pixels()` in emission order (format of `m_line::pts_digest`)
@@ -243,7 +247,8 @@ impl Module for M {
 //   thick.triangle dx dy x1 y1 x2 y2 x3 y3 w align fill stroke
 //       `Triangle::new(v1, v2, v3).translate((dx,dy)).into_styled(style)`, style = stroke width w, alignment
 //       (0 = Inside, 1 = Center, 2 = Outside), fill / stroke colour (`-` or the Rgb565 raw value)
-//       -> `bb=<bounding_box()> draw=<fill_solid calls of draw() on R2 as the point list tl,(w,colour),..; `-` = no call>
+//       -> `bb=<bounding_box()> k=<kinds of the three joins of the clockwise-sorted triangle> c=<is_collapsed: 0/1>
+//           draw=<fill_solid calls of draw() on R2 as the point list tl,(w,colour),..; `-` = no call>
 //           px=<pixels() in emission order as the point list p,(colour,0),..>` (digests as above)
 //
 // Oracles (property texts as predicates on the real results; the logic of m_styled.rs):
@@ -252,12 +257,11 @@ impl Module for M {
 //   C07:translate-field:thick-polyline   picture / non-empty bounding box of the polyline with `translate` = t
 //                                        is the picture / box of the untranslated polyline shifted by t
 //   C07:translate-mut-differs:thick-polyline
-//   C07:join-rounding-tie / C07:draw-not-shifted:thick-polyline / C07:bbox-not-shifted:thick-polyline
+//   C07:draw-not-shifted:thick-polyline / C07:bbox-not-shifted:thick-polyline
 //                                        the polyline with MOVED VERTICES (v + t, translate = 0) paints the shifted
-//                                        picture and has the shifted box. A failure gets the class
-//                                        `C07:join-rounding-tie` only if some join intersection coordinate is an
-//                                        exact rounding tie whose sign differs before and after the move (see
-//                                        `joins_port`); anything else is `draw-not-shifted` / `bbox-not-shifted`.
+//                                        picture and has the shifted box (since /repo ab2e75b join intersections are
+//                                        rounded half up, independent of the position; the former finding
+//                                        "join-rounding-tie" is repaired, its witnesses are in corpus/C07.ops)
 //   C19:polyline-width1                  width 1: the picture is the `points()` set and pixels() = points()
 //   C02:outside-bbox:thick-triangle, C02:transparent-draws:thick-triangle, C01:pixels-vs-draw:thick-triangle,
 //   C07:draw-not-shifted:thick-triangle, C07:bbox-not-shifted:thick-triangle, C07:translate-mut-differs:thick-triangle
@@ -270,6 +274,17 @@ impl Module for M {
 const LAT_X: [i32; 5] = [-4, -1, 0, 2, 6];
 const LAT_Y: [i32; 5] = [-5, -2, 0, 1, 3];
 const OFFS: [(i32, i32); 7] = [(0, 0), (1, 0), (0, -1), (-7, -9), (5, 3), (-3, 4), (64, -33)];
+
+const SKELETON_BASES: [[(i32, i32); 3]; 8] = [
+    [(-1, -5), (2, 0), (6, 3)],
+    [(0, -5), (2, -2), (6, 1)],
+    [(-4, 0), (-1, -2), (2, 0)],
+    [(-4, 1), (0, -2), (2, -5)],
+    [(2, 1), (0, -2), (2, -5)],
+    [(-4, 3), (-1, 1), (2, 3)],
+    [(-1, 3), (2, 1), (6, -5)],
+    [(-5, -4), (-1, 5), (3, 2)],
+];
 
 fn poly_op(tr: (i32, i32), vs: &[(i32, i32)], w: u32) -> String {
     let mut s = format!("thick.polyline {} {} {}", tr.0, tr.1, vs.len());
@@ -296,12 +311,12 @@ fn generate_joins(pid: &str, tier: Tier, rng: &mut Rng, emit: &mut dyn FnMut(Str
     let widths: Vec<u32> = match (pid, quick) {
         ("C19", _) => vec![1],
         (_, true) => vec![2, 3, 4, 5],
-        (_, false) => vec![2, 3, 4, 5, 6, 7, 9],
+        (_, false) => vec![2, 3, 4, 5, 7],
     };
     let (lx, ly): (Vec<i32>, Vec<i32>) = if quick {
         (LAT_X.to_vec(), LAT_Y.to_vec())
     } else {
-        (vec![-7, -4, -1, 0, 2, 6, 9], vec![-8, -5, -2, 0, 1, 3, 7])
+        (vec![-7, -4, -1, 0, 2, 6], vec![-8, -5, -2, 0, 1, 3])
     };
     let mut lat: Vec<(i32, i32)> = Vec::new();
     for &y in &ly {
@@ -357,6 +372,20 @@ fn generate_joins(pid: &str, tier: Tier, rng: &mut Rng, emit: &mut dyn FnMut(Str
         let w = *rng.pick(&widths);
         k += 1;
         emit(poly_op(offset_for(pid, k), &vs, w));
+    }
+    // skeleton segments (a rounded miter of a width-2 stroke whose two corners coincide) are rare
+    // (about 2 per 1000 random small polylines): known ones, continued by every lattice point, in
+    // both directions
+    if pid != "C19" {
+        for base in SKELETON_BASES {
+            for &d in &lat {
+                k += 1;
+                let fwd = [base[0], base[1], base[2], d];
+                emit(poly_op(offset_for(pid, k), &fwd, 2));
+                let back = [d, base[2], base[1], base[0]];
+                emit(poly_op(offset_for(pid, k + 1), &back, 2));
+            }
+        }
     }
     generate_triangles(pid, tier, rng, emit);
     // seeded random polylines within +-60
@@ -463,21 +492,10 @@ fn exec_polyline(t: &mut Toks, op: &str, ctx: &mut Ctx) -> String {
     let pic_ok = mv == want;
     let box_ok = bb_shift_ok(&bb0, &bbv);
     ctx.count(if pic_ok && box_ok { "polyline:moved-vertices-same" } else { "polyline:moved-vertices-differ" });
-    if !(pic_ok && box_ok) {
-        let tie = joins_port::polyline_has_flipping_tie(&vs, w, tr);
-        let class = if tie {
-            "C07:join-rounding-tie"
-        } else if !pic_ok {
-            "C07:draw-not-shifted:thick-polyline"
-        } else {
-            "C07:bbox-not-shifted:thick-polyline"
-        };
-        ctx.expect(false, class, || {
-            format!("moved vertices: {} px vs {} px, {} differing entries; box {} -> {}", mv.len(), want.len(), map_diff(&mv, &want), fmt_rect(&bb0), fmt_rect(&bbv))
-        });
-    } else {
-        ctx.checked();
-    }
+    ctx.expect(pic_ok, "C07:draw-not-shifted:thick-polyline", || {
+        format!("moved vertices: {} px vs {} px, {} differing entries", mv.len(), want.len(), map_diff(&mv, &want))
+    });
+    ctx.expect(box_ok, "C07:bbox-not-shifted:thick-polyline", || format!("moved vertices: box {} -> {}", fmt_rect(&bb0), fmt_rect(&bbv)));
 
     // C19, one-pixel polylines
     if w == 1 {
@@ -487,15 +505,360 @@ fn exec_polyline(t: &mut Toks, op: &str, ctx: &mut Ctx) -> String {
             format!("points() {} distinct, draw() {} px, pixels() {} items", ptset.len(), r2.rec.map.len(), px.len())
         });
     }
-    format!("bb={} draw={} px={}", fmt_rect(&bb), fmt_draw_log(&r2.rec.log), pts_digest(&px))
+    let pv: Vec<joins_port::P> = vs.iter().map(|p| (p.x as i64, p.y as i64)).collect();
+    let (kinds, skeletons) = joins_port::polyline_kinds(&pv, w);
+    if w >= 1 {
+        for ch in kinds.chars().filter(|c| *c != '-') {
+            ctx.count(&format!("polyline:join:{}", kind_name(ch)));
+        }
+        ctx.count_n("polyline:skeleton-segments", skeletons as u64);
+        if n >= 2 {
+            ctx.count_n("polyline:segments", (n - 1) as u64);
+        }
+    }
+    format!("bb={} k={} s={} draw={} px={}", fmt_rect(&bb), kinds, skeletons, fmt_draw_log(&r2.rec.log), pts_digest(&px))
 }
 
-/// Port of the private join arithmetic (only what the C07 classifier and the distribution counters
-/// need): placeholder until the port is written.
-mod joins_port {
-    use embedded_graphics::prelude::*;
-    pub fn polyline_has_flipping_tie(_vs: &[Point], _w: u32, _d: Point) -> bool {
-        false
+fn kind_name(c: char) -> &'static str {
+    match c {
+        'M' => "miter",
+        'b' => "bevel-left",
+        'B' => "bevel-right",
+        'd' => "degenerate-left",
+        'D' => "degenerate-right",
+        'C' => "colinear",
+        _ => "other",
+    }
+}
+
+/// Port (i64 arithmetic on coordinate pairs) of the PRIVATE join arithmetic of /repo:
+/// `BresenhamParameters`, `Bresenham::{next_all, previous_all}`, `ParallelsIterator`,
+/// `Line::extents`, `LinearEquation`, `IntersectionParams`, `LineJoin::{start, end, from_points}`,
+/// `Triangle::is_collapsed`. It is used ONLY for the input distribution (which join kinds, skeleton
+/// segments and collapsed triangles the generated inputs exercise): the kinds are printed into the
+/// result line (`k=..`), where the correspondence compares them with the Lean model's own
+/// classification, so the counters are what the tied model says, not an untested proxy.
+pub mod joins_port {
+    pub type P = (i64, i64);
+    fn add(a: P, b: P) -> P {
+        (a.0 + b.0, a.1 + b.1)
+    }
+    fn sub(a: P, b: P) -> P {
+        (a.0 - b.0, a.1 - b.1)
+    }
+    pub type L = (P, P);
+
+    #[derive(Clone, Copy)]
+    struct Params {
+        thr: i64,
+        step_major: i64,
+        step_minor: i64,
+        pos_major: P,
+        pos_minor: P,
+    }
+    fn params(l: L) -> Params {
+        let d = sub(l.1, l.0);
+        let dir = (if d.0 >= 0 { 1 } else { -1 }, if d.1 >= 0 { 1 } else { -1 });
+        let d = (d.0.abs(), d.1.abs());
+        if d.1 >= d.0 {
+            Params { thr: d.1, step_major: 2 * d.0, step_minor: 2 * d.1, pos_major: (0, dir.1), pos_minor: (dir.0, 0) }
+        } else {
+            Params { thr: d.0, step_major: 2 * d.1, step_minor: 2 * d.0, pos_major: (dir.0, 0), pos_minor: (0, dir.1) }
+        }
+    }
+    impl Params {
+        fn increase(&self, e: &mut i64) -> bool {
+            *e += self.step_major;
+            if *e > self.thr {
+                *e -= self.step_minor;
+                true
+            } else {
+                false
+            }
+        }
+        fn decrease(&self, e: &mut i64) -> bool {
+            *e -= self.step_major;
+            if *e <= -self.thr {
+                *e += self.step_minor;
+                true
+            } else {
+                false
+            }
+        }
+        fn mirror(&self) -> bool {
+            if self.pos_major.0 != 0 {
+                self.pos_major.0 == self.pos_minor.1
+            } else {
+                self.pos_major.1 == -self.pos_minor.0
+            }
+        }
+    }
+    #[derive(Clone, Copy)]
+    struct Br {
+        p: P,
+        e: i64,
+    }
+    /// (point, is_extra)
+    fn next_all(b: &mut Br, q: &Params) -> (P, bool) {
+        let mut point = b.p;
+        if b.e > q.thr {
+            b.p = add(b.p, q.pos_minor);
+            b.e -= q.step_minor;
+            if q.mirror() {
+                point = sub(add(point, q.pos_minor), q.pos_major);
+            }
+            (point, true)
+        } else {
+            b.p = add(b.p, q.pos_major);
+            b.e += q.step_major;
+            (point, false)
+        }
+    }
+    fn previous_all(b: &mut Br, q: &Params) -> (P, bool) {
+        let mut point = b.p;
+        if b.e <= -q.thr {
+            b.p = sub(b.p, q.pos_minor);
+            b.e += q.step_minor;
+            if !q.mirror() {
+                point = add(sub(point, q.pos_minor), q.pos_major);
+            }
+            (point, true)
+        } else {
+            b.p = sub(b.p, q.pos_major);
+            b.e -= q.step_major;
+            (point, false)
+        }
+    }
+    /// stroke offset: 0 = None, 1 = Left, 2 = Right
+    struct Par {
+        par: Params,
+        perp: Params,
+        acc: i64,
+        thr: i64,
+        flip: bool,
+        left: Br,
+        left_error: i64,
+        right: Br,
+        right_error: i64,
+        next_left: bool,
+        offset: u8,
+    }
+    impl Par {
+        fn new(l: L, thickness: i64, offset: u8) -> Par {
+            let start = l.0;
+            let l = if l.0 == l.1 { ((0, 0), (1, 0)) } else { l };
+            let par = params(l);
+            let d = sub(l.1, l.0);
+            let perp = params((l.0, add(l.0, (d.1, -d.0))));
+            let thr = (thickness * 2) * (thickness * 2) * (d.0 * d.0 + d.1 * d.1);
+            let acc = (par.step_minor + par.step_major) / 2;
+            let flip = perp.pos_minor == (-par.pos_major.0, -par.pos_major.1);
+            let next_left = offset == 1;
+            let mut s = Par { par, perp, acc, thr, flip, left: Br { p: start, e: 0 }, left_error: 0, right: Br { p: start, e: 0 }, right_error: 0, next_left, offset };
+            s.next_parallel(!next_left);
+            s
+        }
+        fn next_parallel(&mut self, left: bool) -> ((P, bool), i64) {
+            let decrease_error = if left { self.flip } else { !self.flip };
+            loop {
+                let point = if left { next_all(&mut self.left, &self.perp) } else { previous_all(&mut self.right, &self.perp) };
+                let par = self.par;
+                let error = if left { &mut self.left_error } else { &mut self.right_error };
+                if !point.1 {
+                    return (point, *error);
+                }
+                if decrease_error {
+                    let before = *error;
+                    if par.decrease(error) {
+                        return (point, before);
+                    }
+                } else if par.increase(error) {
+                    return (point, *error);
+                }
+            }
+        }
+        /// (start point of the parallel, is_extra)
+        fn next(&mut self) -> Option<(P, bool)> {
+            if self.acc * self.acc > self.thr {
+                return None;
+            }
+            let (point, _error) = self.next_parallel(self.next_left);
+            self.acc += if point.1 { self.perp.step_major } else { self.perp.step_minor };
+            if self.offset == 0 {
+                self.next_left = !self.next_left;
+            }
+            Some(point)
+        }
+    }
+    /// `Line::extents`: (left line, right line)
+    pub fn extents(l: L, thickness: u32, offset: u8) -> (L, L) {
+        let mut it = Par::new(l, thickness.min(i32::MAX as u32) as i64, offset);
+        let reduce = add(it.par.pos_major, it.par.pos_minor);
+        let mut left = (l.0, false);
+        let mut right = (l.0, false);
+        match offset {
+            0 => loop {
+                match it.next() {
+                    Some(r) => right = r,
+                    None => break,
+                }
+                match it.next() {
+                    Some(r) => left = r,
+                    None => break,
+                }
+            },
+            1 => {
+                while let Some(r) = it.next() {
+                    left = r;
+                }
+            }
+            _ => {
+                while let Some(r) = it.next() {
+                    right = r;
+                }
+            }
+        }
+        let d = sub(l.1, l.0);
+        let mk = |s: (P, bool)| -> L { (s.0, sub(add(s.0, d), if s.1 { reduce } else { (0, 0) })) };
+        (mk(left), mk(right))
+    }
+
+    fn dot(a: P, b: P) -> i64 {
+        a.0 * b.0 + a.1 * b.1
+    }
+    fn det(a: P, b: P) -> i64 {
+        a.0 * b.1 - a.1 * b.0
+    }
+    /// `LinearEquation::from_line`: (normal vector, origin distance)
+    fn le(l: L) -> (P, i64) {
+        let d = sub(l.1, l.0);
+        let n = (-d.1, d.0);
+        (n, dot(l.0, n))
+    }
+    /// distance <= 0 for `left`, >= 0 otherwise
+    fn check_side(e: (P, i64), p: P, left: bool) -> bool {
+        let dist = dot(p, e.0) - e.1;
+        if left {
+            dist <= 0
+        } else {
+            dist >= 0
+        }
+    }
+    /// `IntersectionParams::from_lines(l1, l2)` + `intersection()` + `nearly_colinear_has_error()`:
+    /// `None` = colinear, else (point, outer side is left, has_error)
+    fn intersect(l1: L, l2: L) -> Option<(P, bool, bool)> {
+        let (e1, e2) = (le(l1), le(l2));
+        let den = det(e1.0, e2.0);
+        if den == 0 {
+            return None;
+        }
+        let xn = e1.1 * e2.0 .1 - e2.1 * e1.0 .1;
+        let yn = e1.0 .0 * e2.1 - e2.0 .0 * e1.1;
+        let sign = den.signum();
+        let d = den.abs();
+        let rd = |n: i64| (2 * n * sign + d).div_euclid(2 * d).clamp(i32::MIN as i64, i32::MAX as i64);
+        let has_error = den * den < dot(sub(l1.1, l1.0), sub(l2.1, l2.0)).abs();
+        Some(((rd(xn), rd(yn)), den < 0, has_error))
+    }
+
+    #[derive(Clone, Copy, PartialEq, Debug)]
+    pub struct Join {
+        /// M miter, b / B bevel (outer side left / right), d / D degenerate (left / right), C colinear, S start, E end
+        pub kind: char,
+        pub first_edge_end: (P, P),    // (left, right)
+        pub second_edge_start: (P, P), // (left, right)
+    }
+    pub fn join_start(a: P, b: P, w: u32, off: u8) -> Join {
+        let (l, r) = extents((a, b), w, off);
+        Join { kind: 'S', first_edge_end: (l.0, r.0), second_edge_start: (l.0, r.0) }
+    }
+    pub fn join_end(a: P, b: P, w: u32, off: u8) -> Join {
+        let (l, r) = extents((a, b), w, off);
+        Join { kind: 'E', first_edge_end: (l.1, r.1), second_edge_start: (l.1, r.1) }
+    }
+    pub fn join(start: P, mid: P, end: P, w: u32, off: u8) -> Join {
+        let (fl, fr) = extents((start, mid), w, off);
+        let (sl, sr) = extents((mid, end), w, off);
+        let colinear = Join { kind: 'C', first_edge_end: (fl.1, fr.1), second_edge_start: (sl.0, sr.0) };
+        let (li, outer_left) = match intersect(sl, fl) {
+            Some((p, ol, err)) => (if !err { p } else { fl.1 }, ol),
+            None => return colinear,
+        };
+        let ri = match intersect(sr, fr) {
+            Some((p, _, err)) => {
+                if !err {
+                    p
+                } else {
+                    fr.1
+                }
+            }
+            None => return colinear,
+        };
+        let self_intersection = if outer_left { check_side(le(fr), sr.1, true) } else { check_side(le(fl), sl.1, false) };
+        if !self_intersection {
+            let o = sub(if outer_left { li } else { ri }, mid);
+            let limit = (w as i64 * 2) * (w as i64 * 2);
+            if o.0 * o.0 + o.1 * o.1 <= limit {
+                Join { kind: 'M', first_edge_end: (li, ri), second_edge_start: (li, ri) }
+            } else if outer_left {
+                Join { kind: 'b', first_edge_end: (fl.1, ri), second_edge_start: (sl.0, ri) }
+            } else {
+                Join { kind: 'B', first_edge_end: (li, fr.1), second_edge_start: (li, sr.0) }
+            }
+        } else {
+            Join { kind: if outer_left { 'd' } else { 'D' }, first_edge_end: (fl.1, fr.1), second_edge_start: (sl.0, sr.0) }
+        }
+    }
+    /// kinds of the interior joins of an open polyline and the number of skeleton segments
+    /// (`ThickSegment::is_skeleton`: the start join's `first_edge_end.left == .right`)
+    pub fn polyline_kinds(vs: &[P], w: u32) -> (String, usize) {
+        let mut kinds = String::new();
+        let mut skeletons = 0;
+        if vs.len() >= 2 {
+            let mut start = join_start(vs[0], vs[1], w, 0);
+            for i in 0..vs.len() - 1 {
+                if start.first_edge_end.0 == start.first_edge_end.1 {
+                    skeletons += 1;
+                }
+                if i + 2 < vs.len() {
+                    let j = join(vs[i], vs[i + 1], vs[i + 2], w, 0);
+                    kinds.push(j.kind);
+                    start = j;
+                }
+            }
+        }
+        if kinds.is_empty() {
+            kinds.push('-');
+        }
+        (kinds, skeletons)
+    }
+    /// `sorted_clockwise`, the kinds of the three joins `from_points(v[i], v[i+1], v[i+2])`, and
+    /// `is_collapsed(w, offset)` of the sorted triangle
+    pub fn triangle_kinds(v: [P; 3], w: u32, off: u8) -> (String, bool) {
+        let area = -v[1].1 * v[2].0 + v[0].1 * (v[2].0 - v[1].0) + v[0].0 * (v[1].1 - v[2].1) + v[1].0 * v[2].1;
+        let t: [P; 3] = if area < 0 {
+            [v[1], v[0], v[2]]
+        } else if area > 0 {
+            v
+        } else {
+            let mut s = v;
+            s.sort_by_key(|p| (p.1, p.0));
+            s
+        };
+        let mut kinds = String::new();
+        for i in 0..3 {
+            kinds.push(join(t[i % 3], t[(i + 1) % 3], t[(i + 2) % 3], w, off).kind);
+        }
+        let joins = [join(t[2], t[0], t[1], w, off), join(t[0], t[1], t[2], w, off), join(t[1], t[2], t[0], w, off)];
+        let collapsed = joins.iter().enumerate().any(|(i, j)| {
+            if j.kind == 'd' || j.kind == 'D' {
+                return true;
+            }
+            let inner = j.first_edge_end.1;
+            let opposite = extents((t[(i + 1) % 3], t[(i + 2) % 3]), w, off).1;
+            check_side(le(opposite), inner, true)
+        });
+        (kinds, collapsed)
     }
 }
 
@@ -519,7 +882,7 @@ fn generate_triangles(pid: &str, tier: Tier, rng: &mut Rng, emit: &mut dyn FnMut
         (_, true) => vec![1, 2, 3, 4],
         (_, false) => vec![0, 1, 2, 3, 4, 5, 7],
     };
-    let (lx, ly): (Vec<i32>, Vec<i32>) = if quick { (vec![-3, -1, 0, 4], vec![-4, 0, 1, 3]) } else { (vec![-5, -3, -1, 0, 4, 7], vec![-6, -4, 0, 1, 3, 8]) };
+    let (lx, ly): (Vec<i32>, Vec<i32>) = if quick { (vec![-3, -1, 0, 4], vec![-4, 0, 1, 3]) } else { (vec![-5, -3, -1, 0, 4], vec![-6, -4, 0, 1, 3]) };
     let mut lat: Vec<(i32, i32)> = Vec::new();
     for &y in &ly {
         for &x in &lx {
@@ -685,5 +1048,19 @@ fn exec_triangle(t: &mut Toks, op: &str, ctx: &mut Ctx) -> String {
         pp.push(*p);
         pp.push(Point::new(*c as i32, 0));
     }
-    format!("bb={} draw={} px={}", fmt_rect(&bb), draw, pts_digest(&pp))
+    let tv = tri.vertices.map(|p| (p.x as i64, p.y as i64));
+    let (kinds, collapsed) = joins_port::triangle_kinds(tv, w, match align {
+        0 => 2, // Inside -> StrokeOffset::Right
+        1 => 0, // Center -> None
+        _ => 1, // Outside -> Left
+    });
+    if w >= 1 {
+        for ch in kinds.chars() {
+            ctx.count(&format!("triangle:join:{}", kind_name(ch)));
+        }
+        if collapsed {
+            ctx.count(if align == 0 { "triangle:collapsed-inside" } else { "triangle:is_collapsed-other-alignment" });
+        }
+    }
+    format!("bb={} k={} c={} draw={} px={}", fmt_rect(&bb), kinds, collapsed as u8, draw, pts_digest(&pp))
 }
